@@ -328,10 +328,97 @@ func sequential(r *ev.Run, sd sysDef, u *uni.Universe, rng *rand.Rand, maxRoots 
 			differ("insertion-order", rt, run(sd.mk, c2, budget, rt))
 		}
 	}
+	// Registry change: the shared resolver first resolves every root against
+	// an earlier state of the same registry (dist-tags elsewhere, other
+	// versions deprecated, some versions not yet published, requirement texts
+	// swapped), then against the universe proper. Whatever it learned from
+	// the earlier state must not show in the answers.
+	{
+		u0 := earlierState(u, rng)
+		c0 := u0.Client(nil)
+		for _, rt := range roots {
+			ctx, cancel := context.WithCancel(context.Background())
+			cc := &uni.Counting{C: c0, Budget: budget, Cancel: cancel}
+			sw.set(cc)
+			res.Resolve(ctx, rt)
+			cancel()
+			r.Count("registry_change_warmups:"+sd.name, 1)
+		}
+		for _, rt := range roots {
+			differ("registry-changed", rt, resolveShared(rt))
+		}
+	}
 	c3 := copyClient{u.Client(nil)} // aliasing
 	for _, rt := range roots {
 		differ("defensive-copy-client", rt, run(sd.mk, c3, budget, rt))
 	}
+}
+
+// earlierState derives a different state of the same registry: same package
+// names, but tags moved, deprecations flipped, a fifth of the versions absent
+// and requirement texts exchanged between requirements on the same package.
+func earlierState(u *uni.Universe, rng *rand.Rand) *uni.Universe {
+	o := &uni.Universe{Sys: u.Sys}
+	texts := map[string][]string{}
+	for _, v := range u.Versions {
+		for _, q := range v.Reqs {
+			texts[q.Name] = append(texts[q.Name], q.Req)
+		}
+	}
+	for _, v := range u.Versions {
+		if rng.Intn(5) == 0 {
+			continue
+		}
+		w := v
+		w.Tags = ""
+		if rng.Intn(3) == 0 {
+			w.Blocked = !w.Blocked
+		}
+		w.Reqs = append([]uni.Req(nil), v.Reqs...)
+		for i := range w.Reqs {
+			if ts := texts[w.Reqs[i].Name]; rng.Intn(2) == 0 {
+				w.Reqs[i].Req = ts[rng.Intn(len(ts))]
+			}
+		}
+		o.Versions = append(o.Versions, w)
+	}
+	// Tags go to another version of their package; on npm, where "latest"
+	// steers the choice, most packages get one in the earlier state, and
+	// preferably on a version that the universe proper has deprecated (that is
+	// where a remembered tag would change the pick).
+	byPkg := map[string][]int{}
+	for i := range o.Versions {
+		byPkg[o.Versions[i].Name] = append(byPkg[o.Versions[i].Name], i)
+	}
+	for _, name := range u.Packages() {
+		idx := byPkg[name]
+		if len(idx) == 0 {
+			continue
+		}
+		tag := ""
+		for _, v := range u.Of(name) {
+			if v.Tags != "" {
+				tag = v.Tags
+			}
+		}
+		if tag == "" && u.Sys == "NPM" && rng.Intn(3) > 0 {
+			tag = "latest"
+		}
+		if tag == "" {
+			continue
+		}
+		var blocked []int
+		for _, i := range idx {
+			if w := u.Find(name, o.Versions[i].Version); w != nil && w.Blocked {
+				blocked = append(blocked, i)
+			}
+		}
+		if len(blocked) > 0 && rng.Intn(4) > 0 {
+			idx = blocked
+		}
+		o.Versions[idx[rng.Intn(len(idx))]].Tags = tag
+	}
+	return o
 }
 
 // switchClient lets one resolver object be used with a fresh counting client
